@@ -195,10 +195,10 @@ impl Sched {
             _ => Sched {
                 kind: "stall".into(),
                 seed,
-                // window of a stall in scheduling steps: short ones mostly; one time in
-                // four log-uniform up to 4 x the estimated length of the run -- a worker
-                // that sleeps through (nearly) all the work the others do
-                a: if rng.chance(3, 4) {
+                // window of a stall in scheduling steps: short ones half of the time; else
+                // log-uniform up to 4 x the estimated length of the run -- a worker that
+                // sleeps through (nearly) all the work the others do
+                a: if rng.chance(1, 2) {
                     rng.range(4, 120)
                 } else {
                     let hi = ((est_steps.max(16) * 4) as f64).min(4.0e9);
